@@ -11,10 +11,13 @@ import (
 
 var registry = map[string]func(*core.Run){
 	"C01": checks.C01,
+	"C02": checks.C02,
 	"C04": checks.C04,
 	"C09": checks.C09,
 	"C10": checks.C10,
 	"C11": checks.C11,
+	"C16": checks.C16,
+	"C06": checks.C06,
 	"C07": checks.C07,
 	"C08": checks.C08,
 }
